@@ -535,6 +535,68 @@ theorem C11_with_last_wins (names : List Bytes) (exprs : List Expr) :
   ⟨dedupLast_nodup names exprs, dedupLast_length names exprs, fun k => lookupLast_dedupLast k names exprs,
    fun _ _ _ _ h => (evalArgs_length h).trans (dedupLast_length names exprs).symm⟩
 
+/-! ## engine globals (`Engine.AddGlobal`): visible in every context, shadowed by every context variable -/
+
+/-- **`C11_context_shadows_global`**: a name bound anywhere in the context chain (own map or a parent
+    scope; to any value, null included) evaluates to that binding — the result does not depend on the
+    engine globals at all. -/
+theorem C11_context_shadows_global (E : Env) (ap : Bool) (n : Bytes) (st : St) (g : List (Bytes × Val))
+    (h : st.ctx.hasVar n = true) :
+    evalX { E with globals := g } ap (.var n) st = evalX E ap (.var n) st ∧
+    evalX E ap (.var n) st = .ok ((st.ctx.getVar n, []), st) := by
+  rw [evalX_var, evalX_var, readVar_of_hasVar h, readVar_of_hasVar h]
+  exact ⟨rfl, rfl⟩
+
+/-- **`C11_global_visible_everywhere`**: a name no scope of the chain binds and for which a global is
+    registered evaluates to the global — in every context, whatever its parent chain, its sandbox
+    flags, its block definitions, and whatever macros are visible in it (a global shadows a macro of
+    its name); no error, no state change. -/
+theorem C11_global_visible_everywhere (E : Env) (ap : Bool) (n : Bytes) (st : St) (v : Val)
+    (h : st.ctx.hasVar n = false) (hg : getKV n E.globals = some v) :
+    evalX E ap (.var n) st = .ok ((v, []), st) := by
+  rw [evalX_var, readVar_of_global h hg]
+
+/-- "no scope of the chain binds `n`", spelled out -/
+theorem C11_unbound_iff (c : Ctx) (n : Bytes) :
+    c.hasVar n = false ↔ getKV n c.vars = none ∧ ∀ s ∈ c.parents, getKV n s.vars = none := by
+  rw [← Bool.not_eq_true, Ctx.hasVar_iff]
+  simp only [not_or, not_exists, not_and, Bool.not_eq_true, Option.isSome_eq_false_iff, Option.isNone_iff_eq_none]
+
+/-- … in particular in the context an `include … only` creates (with or without `sandboxed`, whatever
+    the includer's context `c` is): every name that is not a `with` variable and has a global reads
+    as the global there; a `with` variable of that name shadows the global. -/
+theorem C11_global_visible_in_only_include (E : Env) (c : Ctx) (names : List Bytes) (exprs : List Expr) (sb : Bool)
+    (vals : List Val) (ap : Bool) (n : Bytes) (v : Val) (st : St)
+    (hctx : st.ctx = includeCtx E c names exprs true sb vals)
+    (hg : getKV n E.globals = some v) :
+    (lookupLast n (dedupLast names exprs).1 vals = none → evalX E ap (.var n) st = .ok ((v, []), st)) ∧
+    (∀ w, lookupLast n (dedupLast names exprs).1 vals = some w → evalX E ap (.var n) st = .ok ((w, []), st)) := by
+  obtain ⟨hpar, _, _, hkv, hget, _⟩ := C11_visibility_only E c names exprs sb vals _ hctx
+  constructor
+  · intro hnone
+    refine C11_global_visible_everywhere E ap n st v ?_ hg
+    rw [C11_unbound_iff, hkv n, hpar]
+    exact ⟨hnone, fun s hs => by cases hs⟩
+  · intro w hw
+    have hv : st.ctx.hasVar n = true := by
+      rw [Ctx.hasVar_iff, hkv n, hw]; exact .inl rfl
+    rw [(C11_context_shadows_global E ap n st E.globals hv).2, hget n, hw]; rfl
+
+/-- **`C11_defined_scope_independent`**: `x is defined` is true for a variable bound in ANY scope of
+    the chain — the context's own map or any enclosing scope (the includer of a plain include, the
+    caller of a macro, …) — also when it is bound to null. -/
+theorem C11_defined_scope_independent (E : Env) (ap : Bool) (n : Bytes) (args : List Expr) (st : St)
+    (h : (getKV n st.ctx.vars).isSome = true ∨ ∃ s ∈ st.ctx.parents, (getKV n s.vars).isSome = true) :
+    evalX E ap (.test (.var n) (b "defined") args) st = .ok ((.bool true, []), st) := by
+  rw [evalX_defined_var, (Ctx.hasVar_iff st.ctx n).mpr h]; rfl
+
+/-- the full table of `x is defined`: true iff some scope binds `x` or an engine global `x` exists
+    (so a global is "defined" in every context, also under `include … only`) -/
+theorem C11_defined_iff (E : Env) (ap : Bool) (n : Bytes) (args : List Expr) (st : St) :
+    evalX E ap (.test (.var n) (b "defined") args) st =
+      .ok ((.bool (st.ctx.hasVar n || (getKV n E.globals).isSome), []), st) :=
+  evalX_defined_var E ap n args st
+
 /-! ## at the top level: `go` is the fuel-indexed `run`, the included template is rendered by `renderRoot` -/
 
 theorem C11_included_is_rendered (E : Env) (f : Nat) (name : Bytes) (s : St) :
@@ -596,5 +658,32 @@ example : renderDemoAst { tpls := [
       (b "b", [.text (b "<"), .print (.var (b "v")), .text (b ">")])], hasPolicy := true } [] =
     some (.inl (b "[1]<1>")) := by
   decide +kernel
+
+-- engine globals: `g` is registered as a global (7).  It is read at the top level, inside a plain include, under
+-- `include … only`, and inside a macro; a context variable `g` (here 1, or a `with` variable 2) shadows it
+example : renderDemoAst { globals := [(b "g", .int 7)], tpls := [
+      (b "main", [.print (.var (b "g")), .include (.str (b "x")) [] [] false true false,
+                  .include (.str (b "x")) [] [] false false false,
+                  .include (.str (b "x")) [b "g"] [.int 2] false true false]),
+      (b "x", [.text (b "["), .print (.var (b "g")), .text (b "]")])] } [] = some (.inl (b "7[7][7][2]")) := by
+  decide +kernel
+example : renderDemoAst { globals := [(b "g", .int 7)], tpls := [
+      (b "main", [.print (.var (b "g")), .include (.str (b "x")) [] [] false true false,
+                  .include (.str (b "x")) [] [] false false false]),
+      (b "x", [.text (b "["), .print (.var (b "g")), .text (b "]")])] } [(b "g", .int 1)] = some (.inl (b "1[7][1]")) := by
+  decide +kernel
+-- the theorems on a closed instance: global `g` (byte 103), read in an empty context and in one whose PARENT scope binds it to null
+example : evalX { tpls := [], globals := [([103], .int 7)] } true (.var [103]) ⟨{}, [], 0⟩ = .ok ((.int 7, []), ⟨{}, [], 0⟩) :=
+  C11_global_visible_everywhere _ _ _ _ _ rfl rfl
+example : evalX { tpls := [], globals := [([103], .int 7)] } true (.var [103]) ⟨{ parents := [⟨[([103], .null)], []⟩] }, [], 0⟩ =
+    .ok ((.null, []), ⟨{ parents := [⟨[([103], .null)], []⟩] }, [], 0⟩) :=
+  (C11_context_shadows_global { tpls := [] } true [103] _ [([103], .int 7)] rfl).1.trans
+    (C11_context_shadows_global { tpls := [] } true [103] _ [] rfl).2
+-- `is defined` for a variable an enclosing scope binds to null; whole pipeline: null-valued variable of the includer
+example : evalX { tpls := [] } true (.test (.var [103]) (b "defined") []) ⟨{ parents := [⟨[([103], .null)], []⟩] }, [], 0⟩ =
+    .ok ((.bool true, []), ⟨{ parents := [⟨[([103], .null)], []⟩] }, [], 0⟩) :=
+  C11_defined_scope_independent _ _ _ _ _ (.inr ⟨_, List.mem_singleton.mpr rfl, rfl⟩)
+example : renderDemo "{% set v = null %}{% include 'x' %}{% include 'x' only %}" []
+    [("x", "{{ v is defined ? 'D' : 'U' }}")] = some (b "DU") := by decide +kernel
 
 end Twig
